@@ -16,10 +16,10 @@ import collections
 
 THEOREMS_ORDERS = [
     "bfsOrder_perm", "bfsOrder_terminates",
-    "rcmVertexOrder_perm", "rcmChipOrder_perm",
-    "hil_spec", "hilbert_perm_square", "hilbertChipOrder_covers", "levels_spec",
+    "rcmVertexOrder_covers", "rcmVertexOrder_perm", "rcmChipOrder_perm",
+    "hilbert_curve_fills_square", "hilbert_perm_square", "levels_spec", "hilbertChipOrder_covers",
     "isPermOf_iff", "coversOnce_iff",
-    "bfsPlace_complete_unit", "hilbertPlace_complete_unit", "rcmPlace_complete_unit",
+    "seqPlace_complete_of_perm", "bfsPlace_complete_unit", "hilbertPlace_complete_unit", "rcmPlace_complete_unit",
 ]
 
 CLAIM_ORDERS = (
